@@ -82,7 +82,7 @@ ASSUMPTIONS = [
 CTRL = 2121
 MAX_ACTIONS = 120  # no generator comes near; a retry loop that never ends is cut here (and reported by the retry oracle)
 BASE = 30001
-PCONNECT, PASV, RESUME, WORK, END, CLOSEALL = range(6)
+PCONNECT, PASV, RESUME, WORK, END, CLOSEALL, REUSER = range(7)
 OUTCOME = {"ok": 0, "inuse": 1, "other": 2}
 
 
@@ -233,7 +233,8 @@ class Driver:
             self.notes.append(("421-with-free-port", f"session {i}: 421 after trying {tried} while {untried} sat in the pool, never found busy, untried"))
 
     # -- actions
-    def valid_actions(self, max_sessions, rich=True):
+    def valid_actions(self, max_sessions, rich=True, with_user=None):
+        with_user = rich if with_user is None else with_user
         acts = []
         if len(self.raws) < max_sessions and not self.closed:
             acts.append(("connect",))
@@ -243,6 +244,8 @@ class Driver:
             acts.append(("pasv", i, "PASV" if (i + len(self.actions)) % 2 == 0 else "EPSV"))
             acts.append(("end", i, "quit"))
             acts.append(("end", i, "drop"))
+            if with_user:
+                acts.append(("user", i))  # USER again: a re-login on a session that may own a listener / a start-up
             if rich:
                 acts.append(("end", i, "reset"))
                 acts.append(("work", i, "NOOP"))
@@ -349,6 +352,13 @@ class Driver:
                     self.raws[i].take()
                 else:
                     await self.raws[i].send(a[2])
+        elif kind == "user":
+            i = a[1]
+            self.events.append([REUSER, i, 0, 0])
+            if self.live(i):
+                await self.raws[i].send("USER anonymous")  # 230; the listener (or the start-up in flight) is not its business
+                await net.settle()
+                self.raws[i].take()
         elif kind == "end":
             i, how = a[1], a[2]
             self.events.append([END, i, 0, 0])
@@ -542,7 +552,7 @@ def check_driver(ctx, d, msnaps, stream):
 
 
 # ----------------------------------------------------------------------------- generators
-def exhaustive_dfs(ports, max_sessions, depth, budget, ipv6=False):
+def exhaustive_dfs(ports, max_sessions, depth, budget, ipv6=False, with_user=False):
     """every action sequence up to `depth` (valid actions as the real tracker reports them);
     each node is one fresh run of the real server.  Returns the drivers of the maximal runs."""
     out = []
@@ -554,7 +564,7 @@ def exhaustive_dfs(ports, max_sessions, depth, budget, ipv6=False):
         def chooser(d):
             if len(d.actions) < len(prefix):
                 return prefix[len(d.actions)]
-            box["valid"] = d.valid_actions(max_sessions, rich=False)
+            box["valid"] = d.valid_actions(max_sessions, rich=False, with_user=with_user)
             return None
 
         d = run_history(ports, chooser, ipv6)
@@ -588,7 +598,7 @@ def fault_outcome(fault, attempt):
     return "ok"
 
 
-def systematic(nports, nsess, faults, cancel, overlapped, end_mode, all_epsv=False):
+def systematic(nports, nsess, faults, cancel, overlapped, end_mode, all_epsv=False, relogin=False):
     """sessions connect and issue PASV; their start-ups are resumed with the scripted outcome per port and
     attempt, sequentially or round-robin; `cancel` = (session, stage, how) ends that session when its
     start-up is first seen at that stage; then a second PASV (reuse), a transfer, and everybody leaves"""
@@ -638,8 +648,13 @@ def systematic(nports, nsess, faults, cancel, overlapped, end_mode, all_epsv=Fal
             tail = []
             for i in range(len(d.raws)):
                 if d.live(i):
+                    if relogin:  # USER again between the first PASV/EPSV and the second one
+                        tail.append(("user", i))
                     tail.append(("pasv", i, "PASV"))
                     tail.append(("work", i, "LIST"))
+                    if relogin:
+                        tail.append(("user", i))
+                        tail.append(("pasv", i, "EPSV"))
             if end_mode == "close":
                 tail.append(("close",))
             else:
@@ -675,7 +690,7 @@ def random_chooser(rng, max_sessions, length):
         # bias: resumes and pasv more often than ends
         weights = []
         for a in acts:
-            w = {"connect": 3, "pasv": 3, "resume": 5, "work": 1, "end": 1.2, "close": 0.25}[a[0]]
+            w = {"connect": 3, "pasv": 3, "resume": 5, "work": 1, "user": 1.5, "end": 1.2, "close": 0.25}[a[0]]
             weights.append(w)
         return rng.choices(acts, weights)[0]
 
@@ -729,12 +744,20 @@ def correspondence(ctx, budget=None):
         for d in exhaustive_dfs(ports, ms, depth, bud, v6):
             drivers.append(("exhaustive-ipv6" if v6 else "exhaustive", d))
             n_ex += 1
+    # the same DFS with USER-again among the actions (re-login with a listener open / being opened)
+    exu = [([30001, 30002], 1, 6, 700), ([30001], 2, 5, 500)]
+    if thorough:
+        exu = [([30001, 30002], 1, 8, 4000), ([30001, 30002], 2, 6, 3000), ([30001], 2, 7, 2000)]
+    for ports, ms, depth, bud in exu:
+        for d in exhaustive_dfs(ports, ms, depth, bud, False, with_user=True):
+            drivers.append(("exhaustive-relogin", d))
+            n_ex += 1
     ctx.count("exhaustive_histories", n_ex)
 
     # (b) systematic
     import itertools
 
-    n_sys = n_sys6 = 0
+    n_sys = n_sys6 = n_sysu = 0
     for nports in (0, 1, 2, 3):
         fsets = list(itertools.product(FAULTS, repeat=nports))
         if nports == 3 and not thorough:
@@ -752,6 +775,10 @@ def correspondence(ctx, budget=None):
                         ports, ch = systematic(nports, nsess, faults, cancel, overlapped, end_mode)
                         drivers.append(("systematic", run_history(ports, ch)))
                         n_sys += 1
+                        if nports >= 1 and (thorough or cancel is None or nsess == 1):
+                            ports, ch = systematic(nports, nsess, faults, cancel, overlapped, end_mode, relogin=True)
+                            drivers.append(("systematic-relogin", run_history(ports, ch)))
+                            n_sysu += 1
                         # the same script on an IPv6 listener (PASV there: listener opened, then 503 and the session
                         # ends), with the first commands mixed PASV/EPSV or all EPSV (the later PASV meets a listener)
                         if nports in (1, 2) and (thorough or nsess <= 2 or cancel is None):
@@ -761,6 +788,7 @@ def correspondence(ctx, budget=None):
                                 n_sys6 += 1
     ctx.count("systematic_histories", n_sys)
     ctx.count("systematic_ipv6_histories", n_sys6)
+    ctx.count("systematic_relogin_histories", n_sysu)
 
     # (c) random
     n_rand = budget or (8000 if thorough else 900)
